@@ -223,7 +223,7 @@ def _df_fillna(df, method = None, axis = 0, limit = None):
         elif m in ['ffill_na', 'ffill_0']: # forward fill but only up to the end of a timeseries
             invalid = np.nan if m == 'ffill_na' else 0.
             if len(df.shape) == 1:
-                last_valid = df.last_valid_index()
+                last_valid = res.last_valid_index()
                 if last_valid is not None:    
                     res = res.ffill(**params)
                     res[res.index>last_valid] = invalid
